@@ -20,6 +20,11 @@ theorem outOf_keepRes (st : St) (r : Res) : outOf (keepRes st r) = outOf r := by
   | error e => rfl
   | ok p => rfl
 
+theorem outOf_keepStopRes (st : St) (r : Res) : outOf (keepStopRes st r) = outOf r := by
+  cases r with
+  | error e => rfl
+  | ok p => rfl
+
 /-- the bound-variable expression of a `render` tag, if any -/
 def bindExpr : Option (Bool × Expr × Option String) → Option Expr
   | none => none
@@ -27,12 +32,13 @@ def bindExpr : Option (Bool × Expr × Option String) → Option Expr
 
 /-- **Sentence 1 (a rendered template sees only its arguments, its bound variable and global data).**  Take any two
 callers — any pushed block scopes (loop variables, `with`), any assigned / captured locals, any counters, macros and
-loop stacks, any `include`-permission and chain size — that share the global data and in which the tag's keyword
+loop stacks, any `include`-permission and chain size, any `globals` (inside an overriding `{% block %}` these hold the
+base template's whole scope) — that share the isolated global data (`_isolated_globals`) and in which the tag's keyword
 arguments and bound variable evaluate alike.  Then the `render` tag produces the same text (or the same error) in
 both. -/
 theorem render_isolated (E : Env) (G₁ G₂ : Frame) (st₁ st₂ : St) (name : String)
     (bind : Option (Bool × Expr × Option String)) (args : List (String × Expr))
-    (hg : G₁.globals = G₂.globals) (hc : G₁.copyDepth = G₂.copyDepth)
+    (hg : G₁.iso = G₂.iso) (hc : G₁.copyDepth = G₂.copyDepth)
     (ha : evalArgs E G₁ st₁ args = evalArgs E G₂ st₂ args)
     (hb : ∀ e, bindExpr bind = some e → eval E G₁ st₁ e = eval E G₂ st₂ e) :
     outOf (render E G₁ st₁ (.render name bind args)) = outOf (render E G₂ st₂ (.render name bind args)) := by
@@ -98,10 +104,10 @@ theorem render_isolated_names (E : Env) (G : Frame) (st₁ st₂ : St) (name : S
 namespace (keyword arguments, bound variable, `forloop`), then the **caller's globals** (render arguments, front
 matter, template and environment globals, outer render namespaces), the built-ins, the partial's own counters.
 Nothing of the caller's state occurs. -/
-theorem partial_sees_only_args_and_globals (G : Frame) (ns : NS) (stp : St) (k : String) :
-    (view (G.copied ns) stp).root k =
+theorem partial_sees_only_args_and_globals (G : Frame) (ns : NS) (tn : List Node) (stp : St) (k : String) :
+    (view (G.copied ns tn) stp).root k =
       C14.firstSome (stp.pushed.map (dictGet · k) ++ [dictGet stp.locals k] ++ [dictGet ns k] ++
-        G.globals.map (dictGet · k) ++ [builtinGet k, (dictGet stp.counters k).map Val.int]) := by
+        G.iso.map (dictGet · k) ++ [builtinGet k, (dictGet stp.counters k).map Val.int]) := by
   rw [C14.lookup_order_chain]
   simp [Frame.copied]
 
@@ -130,7 +136,7 @@ theorem render_no_leak (E : Env) (G : Frame) (st st' : St) (name : String)
   · rw [hr] at h; exact (keepRes_ok h).1
 
 /-- **Sentence 1 (it cannot use the include tag).**  The context `copy` hands to the partial has `include` disabled … -/
-theorem copied_disables_include (G : Frame) (ns : NS) : (G.copied ns).noInclude = true := rfl
+theorem copied_disables_include (G : Frame) (ns : NS) (tn : List Node) : (G.copied ns tn).noInclude = true := rfl
 
 /-- … the flag is per context and nothing inside the context clears it (block scopes only change the chain size) … -/
 theorem extend_keeps_disabled (G : Frame) (n : Nat) : ({ G with sz := n } : Frame).noInclude = G.noInclude := rfl
@@ -141,28 +147,32 @@ theorem include_disabled (E : Env) (G : Frame) (st : St) (name : String) (bind :
     render E G st (.include name bind args) = .error .disabledTag := by
   simp [render, h]
 
-/-- Hence a block of a rendered partial (or of a macro) with an `include` in it never completes: whatever precedes
-the tag, the block ends in an error, for every state. -/
+/-- Hence a block of a rendered partial (or of a macro) never gets past an `include` in it: whatever precedes the tag,
+the block ends in an error — or was left before the tag by a `StopRender` (an `extends` tag) — for every state. -/
 theorem block_with_include_fails (E : Env) (G : Frame) (h : G.noInclude = true) (pre post : List Node) (name : String)
     (bind : Option (Expr × Option String)) (args : List (String × Expr)) (st : St) :
-    ∃ e, renderList E G st (pre ++ .include name bind args :: post) = .error e := by
+    (∃ e, renderList E G st (pre ++ .include name bind args :: post) = .error e) ∨
+    (∃ st' o, renderList E G st (pre ++ .include name bind args :: post) = .ok (st', o) ∧ st'.stopped = true) := by
   induction pre generalizing st with
-  | nil => exact ⟨.disabledTag, by simp [renderList, include_disabled E G st name bind args h]⟩
+  | nil => exact .inl ⟨.disabledTag, by simp [renderList, include_disabled E G st name bind args h]⟩
   | cons n r ih =>
     simp only [List.cons_append, renderList]
     cases hn : render E G st n with
-    | error e => exact ⟨e, rfl⟩
+    | error e => exact .inl ⟨e, rfl⟩
     | ok p =>
       obtain ⟨st1, o1⟩ := p
-      obtain ⟨e, he⟩ := ih st1
-      exact ⟨e, by simp [he]⟩
+      by_cases hs : st1.stopped = true
+      · exact .inr ⟨st1, o1, by simp [hs], hs⟩
+      · rcases ih st1 with ⟨e, he⟩ | ⟨st2, o2, he, h2⟩
+        · exact .inl ⟨e, by simp [hs, he]⟩
+        · exact .inr ⟨st2, o1 ++ o2, by simp [hs, he], h2⟩
 
 /-! ## Macros -/
 
 /-- every way a `call` tag can end: an error, nothing (undefined macro), or the body's text with the caller's state -/
 theorem call_tag_shape (E : Env) (G : Frame) (st : St) (name : String) (pos : List Expr) (kw : List (String × Expr)) :
     (∃ e, render E G st (.call name pos kw) = .error e) ∨ render E G st (.call name pos kw) = .ok (st, "") ∨
-    (∃ r, render E G st (.call name pos kw) = keepRes st r) := by
+    (∃ r, render E G st (.call name pos kw) = keepStopRes st r) := by
   simp only [render]
   split
   · split
@@ -174,37 +184,108 @@ theorem call_tag_shape (E : Env) (G : Frame) (st : St) (name : String) (pos : Li
       · exact .inl ⟨_, rfl⟩
       · exact .inr (.inr ⟨_, rfl⟩)
 
-/-- **Sentence 2 (a macro body is isolated in the same way): nothing leaks out.** -/
+/-- **Sentence 2 (a macro body is isolated in the same way): nothing leaks out.**  The caller's locals, counters,
+macros, pushed scopes, loop stack and block stacks are what they were; only a `StopRender` raised by an `extends` tag
+inside the macro body passes through (the flag). -/
 theorem call_no_leak (E : Env) (G : Frame) (st st' : St) (name : String) (pos : List Expr) (kw : List (String × Expr))
-    (o : String) (h : render E G st (.call name pos kw) = .ok (st', o)) : st' = st := by
+    (o : String) (h : render E G st (.call name pos kw) = .ok (st', o)) : ∃ b, st' = { st with stopped := b } := by
   rcases call_tag_shape E G st name pos kw with ⟨e, he⟩ | he | ⟨r, hr⟩
   · rw [he] at h; cases h
-  · rw [he] at h; cases h; rfl
-  · rw [hr] at h; exact (keepRes_ok h).1
+  · rw [he] at h; cases h; exact ⟨st.stopped, rfl⟩
+  · rw [hr] at h
+    obtain ⟨s1, _, h2⟩ := keepStopRes_ok h
+    exact ⟨s1.stopped, h2⟩
 
 /-- **Sentence 2: nothing leaks in.**  Two callers that hold the same macro, share the global data and in which the
 call's arguments (positional, keyword, defaults — all evaluated at the call site) produce the same namespace get the
 same text from the macro body, whatever their locals, block scopes, counters and other macros are. -/
 theorem call_isolated (E : Env) (G₁ G₂ : Frame) (st₁ st₂ : St) (name : String) (pos : List Expr)
     (kw : List (String × Expr)) (m : Macro)
-    (hg : G₁.globals = G₂.globals) (hc : G₁.copyDepth = G₂.copyDepth)
+    (hg : G₁.iso = G₂.iso) (hc : G₁.copyDepth = G₂.copyDepth) (ht : G₁.tnodes = G₂.tnodes)
     (hm₁ : dictGet st₁.macros name = some m) (hm₂ : dictGet st₂.macros name = some m)
     (ha : callNamespace E G₁ st₁ m pos kw = callNamespace E G₂ st₂ m pos kw) :
     outOf (render E G₁ st₁ (.call name pos kw)) = outOf (render E G₂ st₂ (.call name pos kw)) := by
-  simp only [render, hm₁, hm₂, ha, Frame.copied, hg, hc]
+  simp only [render, hm₁, hm₂, ha, Frame.copied, hg, hc, ht]
   cases callNamespace E G₂ st₂ m pos kw with
   | error x => rfl
   | ok ns =>
     simp only
     by_cases hd : G₂.copyDepth > E.depth
     · simp only [hd, dite_true]
-    · simp only [hd, dite_false, outOf_keepRes]
+    · simp only [hd, dite_false, outOf_keepStopRes]
 
 /-- the macro body's context has `include` disabled as well -/
-theorem call_disables_include (E : Env) (G : Frame) (ns : NS) (st : St) (name : String)
+theorem call_disables_include (E : Env) (G : Frame) (ns : NS) (tn : List Node) (st : St) (name : String)
     (bind : Option (Expr × Option String)) (args : List (String × Expr)) :
-    render E (G.copied ns) st (.include name bind args) = .error .disabledTag :=
+    render E (G.copied ns tn) st (.include name bind args) = .error .disabledTag :=
   include_disabled E _ st name bind args rfl
+
+/-! ## Inside an overriding `{% block %}` (the block-scoped copy) and the bound variable -/
+
+/-- the context an overriding block is rendered in passes the isolated global data on unchanged, although its own
+`globals` hold the base template's whole scope … -/
+theorem block_copy_inherits_iso (G : Frame) (p : List NS) (l : NS) (c : List (String × Int)) :
+    (G.blockCopied p l c).iso = G.iso := rfl
+
+/-- … and keeps the tags its template may not use disabled. -/
+theorem block_copy_keeps_disabled (G : Frame) (p : List NS) (l : NS) (c : List (String × Int)) :
+    (G.blockCopied p l c).noInclude = G.noInclude := rfl
+
+/-- **Sentence 1 for a `render` tag placed inside an overriding block.**  The base template's state — its pushed scopes
+`p`, its assigned / captured variables `l`, its counters `c`, all of which the block itself can read — and the block's
+own state may differ freely: if the tag's arguments and bound variable evaluate alike, the rendered partial prints the
+same. -/
+theorem render_isolated_in_block (E : Env) (G : Frame) (p₁ p₂ : List NS) (l₁ l₂ : NS) (c₁ c₂ : List (String × Int))
+    (st₁ st₂ : St) (name : String) (bind : Option (Bool × Expr × Option String)) (args : List (String × Expr))
+    (ha : evalArgs E (G.blockCopied p₁ l₁ c₁) st₁ args = evalArgs E (G.blockCopied p₂ l₂ c₂) st₂ args)
+    (hb : ∀ e, bindExpr bind = some e → eval E (G.blockCopied p₁ l₁ c₁) st₁ e = eval E (G.blockCopied p₂ l₂ c₂) st₂ e) :
+    outOf (render E (G.blockCopied p₁ l₁ c₁) st₁ (.render name bind args)) =
+      outOf (render E (G.blockCopied p₂ l₂ c₂) st₂ (.render name bind args)) :=
+  render_isolated E _ _ st₁ st₂ name bind args rfl rfl ha hb
+
+/-- … with literal arguments: for every pair of base-template states and block states. -/
+theorem render_isolated_in_block_locals (E : Env) (G : Frame) (p₁ p₂ : List NS) (l₁ l₂ : NS)
+    (c₁ c₂ : List (String × Int)) (st₁ st₂ : St) (name : String) (args : List (String × Expr)) (h : allLit args = true) :
+    outOf (render E (G.blockCopied p₁ l₁ c₁) st₁ (.render name none args)) =
+      outOf (render E (G.blockCopied p₂ l₂ c₂) st₂ (.render name none args)) :=
+  render_isolated_in_block E G p₁ p₂ l₁ l₂ c₁ c₂ st₁ st₂ name none args (evalArgs_lits E _ _ st₁ st₂ args h)
+    (by intro e he; simp [bindExpr] at he)
+
+/-- **Sentence 2 for a macro call placed inside an overriding block.** -/
+theorem call_isolated_in_block (E : Env) (G : Frame) (p₁ p₂ : List NS) (l₁ l₂ : NS) (c₁ c₂ : List (String × Int))
+    (st₁ st₂ : St) (name : String) (pos : List Expr) (kw : List (String × Expr)) (m : Macro)
+    (hm₁ : dictGet st₁.macros name = some m) (hm₂ : dictGet st₂.macros name = some m)
+    (ha : callNamespace E (G.blockCopied p₁ l₁ c₁) st₁ m pos kw = callNamespace E (G.blockCopied p₂ l₂ c₂) st₂ m pos kw) :
+    outOf (render E (G.blockCopied p₁ l₁ c₁) st₁ (.call name pos kw)) =
+      outOf (render E (G.blockCopied p₂ l₂ c₂) st₂ (.call name pos kw)) :=
+  call_isolated E _ _ st₁ st₂ name pos kw m rfl rfl rfl hm₁ hm₂ ha
+
+/-- **Sentence 1 (the bound variable arrives).**  `{% render 'p' with e [as alias] %}` (or `for` over a value that is not
+array-like): whatever the caller's state and the global data are — no global data at all and no keyword arguments
+included — the partial is rendered in a context in which the bound name resolves to the value of `e`, unless the
+partial itself rebinds it. -/
+theorem bound_variable_arrives (E : Env) (G : Frame) (st : St) (name : String) (loop : Bool) (e : Expr)
+    (alias : Option String) (args : List (String × Expr)) (body : List Node) (ns : NS) (v : Val)
+    (hl : lookupT E.templates name = some body) (ha : evalArgs E G st args = .ok ns) (hv : eval E G st e = .ok v)
+    (hd : ¬ G.copyDepth > E.depth) (hnl : (if loop then arrayLike v else none) = none)
+    (hu : (loop && E.cfg.strictUndef && v.isUndef) = false) :
+    render E G st (.render name (some (loop, e, alias)) args) =
+      keepRes st (renderPartial E (G.copied (dictSet (dictOf ns) (bindKey name alias) v) body) St.fresh body) ∧
+    ∀ stp : St, lookupChain stp.pushed (bindKey name alias) = none → dictGet stp.locals (bindKey name alias) = none →
+      (view (G.copied (dictSet (dictOf ns) (bindKey name alias) v) body) stp).root (bindKey name alias) = some v := by
+  refine ⟨?_, ?_⟩
+  · simp only [render, hl, ha, hd, hv, hu, hnl, dite_false, Bool.false_eq_true, if_false]
+  · intro stp h1 h2
+    simp [View.root, view, Frame.copied, lookupChain_append, lookupChain, h1, h2, dictGet_dictSet]
+
+/-- … and in every iteration of `{% render 'p' for items [as alias] %}` the bound name resolves to the item. -/
+theorem bound_item_arrives (G : Frame) (args : NS) (pg : List NS) (key : String) (n i : Nat) (itm : Val) (stp : St)
+    (h1 : lookupChain stp.pushed key = none) (h2 : dictGet stp.locals key = none) :
+    (view { G with globals := dictSet (dictSet args "forloop" (forloopDrop key n i .undef)) key itm :: pg,
+                   iso := dictSet (dictSet args "forloop" (forloopDrop key n i .undef)) key itm :: pg } stp).root key
+      = some itm := by
+  simp [View.root, view, lookupChain_append, lookupChain, h1, h2, dictGet_dictSet]
+
 
 /-! ## Non-vacuity -/
 
@@ -217,11 +298,11 @@ example : renderTemplate E1 [] [] [] []
     [.assign "x" (.lit (.str "C")), .render "p" none [("a", .lit (.str "A"))], .out (.path (.name "x") [])] = .ok "AC" := by
   simp [renderTemplate, renderList, render, renderPartial, eval, evalExpr, evalPath, evalSeg, evalSegs, ctxGet, walk,
     View.root, view, lookupChain, dictGet, dictSet, dictOf, topGlobals, dictMerge, St.fresh, showOut, popRes, keepRes,
-    lookupT, evalArgs, E1, builtinGet, Frame.copied]
+    lookupT, evalArgs, E1, builtinGet, Frame.copied, topFrame, sizeBad, popCatchRes]
 
 /-- include inside a rendered partial is refused -/
 example : renderTemplate E1 [] [] [] [] [.render "q" none []] = .error .disabledTag := by
   simp [renderTemplate, renderList, render, renderPartial, dictOf, topGlobals, dictMerge, St.fresh, popRes, keepRes,
-    lookupT, evalArgs, E1, Frame.copied, dictGet]
+    lookupT, evalArgs, E1, Frame.copied, dictGet, topFrame, sizeBad, popCatchRes]
 
 end LiquidVerif.C15
